@@ -55,6 +55,7 @@ inductive UnKind
   | thenF (f : Fn) | uponError (f : Fn) | uponDone (f : Fn)   -- upon_done's callable takes no argument: scripted as f applied to 0
   | matDemat | doneAsOpt (d : Nat) | unstoppable | withTag (q : Nat) | withSrc | erase
   | intoVariant | deferK | allocate
+  | matObs     -- then(materialize(x), observer): every channel of x becomes a value (v ↦ v, error e ↦ e+100, done ↦ 77)
   deriving DecidableEq, Repr
 
 inductive BinKind
@@ -161,6 +162,8 @@ def UnKind.map (k : UnKind) (o : Outcome) : Outcome :=
   | .uponError f, .error e => f.app e
   | .uponDone f, .done => f.app 0
   | .doneAsOpt d, .done => .value d
+  | .matObs, .error e => .value (e + 100)
+  | .matObs, .done => .value 77
   | _, o => o
 
 /-- the environment a unary adaptor gives its child -/
